@@ -214,6 +214,56 @@ def h_int_history(c, f, g, rx, ry):
     c.prove(sharedsym.same(warm[1], cold[1]), "g(y)-after-f(x)==g(y)-on-cold-state", info={"f": f, "g": g})
 
 
+# ---------------------------------------------------------------------------------- singleton two-call histories
+def h_singleton_history(c, f, g):
+    """g(y) on the shared module-level singleton after f(x) (independent symbolic angles) vs g(y) on a fresh
+    instance of the same class: catches memoisation keyed on less than (method, argument)."""
+    sf.install_float_mode(c, "real")
+    c.real_mul_uf = True
+    undo_math = sharedsym.install_uf_math()
+    snap = shared.snapshot_state()
+    try:
+        import a5.core.coordinate_transforms as ct
+        warm = ct.authalic
+        cold = type(warm).__mro__[1]() if getattr(type(warm), "_symx_hooked", False) else type(warm)()
+        x = sf.real_input(c, "x", -2, 2)
+        y = sf.real_input(c, "y", -2, 2)
+        getattr(warm, f)(x)
+        rw = getattr(warm, g)(y)
+        rc = getattr(cold, g)(y)
+    finally:
+        undo_math()
+        shared.restore_state(snap)
+    c.prove(sharedsym.same(rw, rc), "singleton:g(y)-after-f(x)==g(y)-on-a-fresh-instance", info={"f": f, "g": g, "candidate": True})
+
+
+def h_face_history(c, r, S):
+    """the same (S, resolution) on every ordered pair of (face, segment): warm result of the second == its cold
+    result (concrete differential run over all 60 x 59 pairs; catches per-cell memos keyed without the face)."""
+    import a5
+    from a5.core.serialization import serialize
+    from a5.core.utils import A5Cell
+    from a5.core.origin import origins
+    cells = [serialize(A5Cell(origin=origins[f], segment=g, S=S, resolution=r)) for f in range(12) for g in range(5)]
+    cold = {}
+    for x in cells:
+        cold[x] = (a5.cell_to_lonlat(x), a5.cell_to_boundary(x, {"segments": 1}))
+        # between cold evaluations call something unrelated so that a 'most recent' memo cannot serve x itself
+        a5.cell_to_lonlat(a5.lonlat_to_cell((1.0, 2.0), 7))
+    bad = None
+    for x in cells:
+        for y in cells:
+            if x == y:
+                continue
+            a5.cell_to_lonlat(x)
+            if a5.cell_to_lonlat(y) != cold[y][0]:
+                bad = (x, y)
+            a5.cell_to_boundary(x, {"segments": 1})
+            if a5.cell_to_boundary(y, {"segments": 1}) != cold[y][1]:
+                bad = (x, y)
+    c.prove(bad is None, "api:same-index-on-another-face:warm==cold", info={"candidate": True, "pair": bad})
+
+
 # ---------------------------------------------------------------------------------- float API histories
 def h_api_history(c, i, j):
     import a5
@@ -314,6 +364,13 @@ def jobs(tier, seed):
         pairs = [(i, j) for i in range(n) for j in range(n) if (i + j) % 3 == 0 or i == j]
     for i, j in pairs:
         js.append(Job("api-history[%d,%d]" % (i, j), "h_api_history", {"i": i, "j": j}, {"logic": None}, weight=1))
+    for f in ("forward", "inverse"):
+        for g in ("forward", "inverse"):
+            js.append(Job("singleton-history[authalic.%s;%s]" % (f, g), "h_singleton_history", {"f": f, "g": g}, dict(o), weight=2))
+    import random
+    rnd = random.Random(seed)
+    for r in ((2, 3, 6) if tier == "quick" else (2, 3, 4, 6, 9, 15, 29)):
+        js.append(Job("face-history[r=%d]" % r, "h_face_history", {"r": r, "S": rnd.randrange(4 ** (r - 1))}, {"logic": None}, weight=8))
     for which in ("cell_to_children", "uncompact", "compact"):
         for r in ((0, 1, 2, 9, 28) if tier == "quick" else (-1, 0, 1, 2, 3, 9, 27, 28)):
             js.append(Job("alias[%s,r=%d]" % (which, r), "h_alias", {"which": which, "r": r}, {"max_paths": 3000}, weight=2))
@@ -442,6 +499,43 @@ print("ok")
 """ % (na, aa, nb, ab)
         script = "SRC = " + repr(script) + "\n" + script
         return {"script": script, "description": "API history", "candidate": True}
+    if f == "h_singleton_history":
+        return {"script": _PRE + """
+import math
+from a5.core import coordinate_transforms as ct
+from a5.projections.authalic import AuthalicProjection
+f, g = %r, %r
+for x in (0.3, 1.0471975511965976, -0.7, 1.2):
+    for y in (x, 0.3, -1.1):
+        getattr(ct.authalic, f)(x)
+        if getattr(ct.authalic, g)(y) != getattr(AuthalicProjection(), g)(y): bad("history-dependent:authalic.%%s-after-%%s" %% (g, f))
+print("ok")
+""" % (p["f"], p["g"]), "description": "authalic singleton history", "candidate": True}
+    if f == "h_face_history":
+        body = _PRE + """
+import os, a5
+from a5.core.serialization import serialize
+from a5.core.utils import A5Cell
+from a5.core.origin import origins
+r, S = %d, %d
+cells = [serialize(A5Cell(origin=origins[f], segment=g, S=S, resolution=r)) for f in range(12) for g in range(5)]
+def obs(c): return json.loads(json.dumps([a5.cell_to_lonlat(c), a5.cell_to_boundary(c, {"segments": 1})]))
+if os.environ.get("C17_COLD"):
+    print(json.dumps(obs(int(os.environ["C17_COLD"])))); sys.exit(0)
+for x in cells:
+    for y in cells:
+        if x == y: continue
+        obs(x)
+        warm = obs(y)
+        if warm != obs(y) or True:
+            pass
+        key = str(y)
+        if key not in globals().setdefault("COLD", {}):
+            COLD[key] = json.loads(subprocess.run([sys.executable, "-c", SRC], capture_output=True, text=True, env=dict(os.environ, C17_COLD=key)).stdout)
+        if warm != COLD[key]: bad("history-dependent:same-index-on-another-face:r=%%d" %% r)
+print("ok")
+""" % (p["r"], p["S"])
+        return {"script": "SRC = " + repr(body) + "\n" + body, "description": "same index on another face", "candidate": True}
     if f == "h_alias":
         script = _PRE + """
 import a5
